@@ -606,7 +606,13 @@ func (mgr *Manager) invalidateTags(updatedStreams, resetStreams, addedStreams bi
 			//TODO: is a matching stream really uncertain?
 			tin.Uncertain = mgr.allStreams
 		} else if ti.features.MainFeatures&^query.FeatureFilterID == 0 {
-			continue
+			// only the stream id matters: existing streams keep their result,
+			// but added streams still have to be evaluated
+			if addedStreams.IsZero() {
+				continue
+			}
+			tin.Uncertain = ti.Uncertain.Copy()
+			tin.Uncertain.Or(addedStreams)
 		} else {
 			tin.Uncertain = ti.Uncertain.Copy()
 			tin.Uncertain.Or(addedStreams)
@@ -1265,6 +1271,7 @@ func (mgr *Manager) UpdateTag(name string, operation UpdateTagOperation) error {
 					return fmt.Errorf("unknown stream id %d", maxUsedStreamID)
 				}
 				newTag := *tag
+				pendingUncertain := tag.Uncertain
 				newTag.Matches = tag.Matches.Copy()
 				newTag.Uncertain = tag.Uncertain.Copy()
 				// update mark streamid tag matches without parsing the definition again
@@ -1326,7 +1333,8 @@ func (mgr *Manager) UpdateTag(name string, operation UpdateTagOperation) error {
 				tag = &newTag
 				mgr.tags[name] = tag
 				mgr.inheritTagUncertainty()
-				mgr.tags[name].Uncertain = bitmask.LongBitmask{}
+				// the marked streams are decided now, streams that were pending before still are
+				mgr.tags[name].Uncertain = pendingUncertain
 				mgr.startTaggingJobIfNeeded()
 				mgr.startConverterJobIfNeeded()
 			}
